@@ -4,6 +4,7 @@ import (
 	"bytes"
 	"encoding/json"
 	"fmt"
+	"runtime/debug"
 	"strings"
 	"testing"
 	"time"
@@ -38,6 +39,8 @@ type hostCase struct {
 }
 
 func checkHostile(c hostCase) *verdict {
+	// a hostile reply may declare a bulk of up to 512 MiB, which the proxy may allocate: hand it back after the case
+	defer debug.FreeOSMemory()
 	w, err := sim.NewWorld(2, 0)
 	if err != nil {
 		return nil
